@@ -18,7 +18,7 @@ impl HasKey<Public> for V3 {
 
     fn decode(bytes: &[u8]) -> Result<PublicKey, PasetoError> {
         // v3 public keys are 49-byte compressed points; other SEC1 forms of the same point are not accepted
-        if bytes.len() != 49 {
+        if bytes.len() != 49 || !matches!(bytes[0], 0x02 | 0x03) {
             return Err(PasetoError::InvalidKey);
         }
         p384::ecdsa::VerifyingKey::from_sec1_bytes(bytes)
